@@ -486,8 +486,12 @@ func runParent(ck *Check, tier Tier, nworkers int) int {
 		"violations":  len(reported),
 	}
 	b, _ := json.MarshalIndent(ev, "", " ")
-	os.MkdirAll(filepath.Join(root, "evidence"), 0o755)
-	if err := os.WriteFile(filepath.Join(root, "evidence", ck.ID+".json"), b, 0o644); err != nil {
+	evDir := filepath.Join(root, "evidence")
+	if d := os.Getenv("VERIF_EVIDENCE_DIR"); d != "" {
+		evDir = d // development aid (seeded-defect evaluation); the registered commands never set it
+	}
+	os.MkdirAll(evDir, 0o755)
+	if err := os.WriteFile(filepath.Join(evDir, ck.ID+".json"), b, 0o644); err != nil {
 		fmt.Fprintln(os.Stderr, err)
 		return exitHarness
 	}
